@@ -309,7 +309,7 @@ class StepBudgetExceeded(Exception):
   pass
 
 
-OP_TIMER_S = 0.05
+OP_TIMER_S = 0.1
 _SIGALRM = int(signal.SIGALRM)
 TRACE_BUDGET = 20000
 
@@ -361,47 +361,60 @@ def _run_traced(fn, args):
 
 
 def run_event(w: World, ev, retry_world=None):
-  """Executes the event.  Returns "ok", "exc:<Type>" or "hang".  A call that does not return within OP_TIMER_S is
-  re-run on `retry_world()` (a fresh replay) under a deterministic step budget; only if the budget is exhausted as
-  well is the outcome "hang" (so a slow machine cannot fake a hang).  After "hang" the world must be discarded."""
+  """Executes the event.  Returns (outcome, world): outcome is "ok", "exc:<Type>" or "hang".  A call that does not
+  return within OP_TIMER_S is re-run on `retry_world()` (a fresh replay) under a deterministic step budget; only if the
+  budget is exhausted as well is the outcome "hang" (a slow machine cannot fake a hang).  After "hang" the world must
+  be discarded.  The kernel's per-history alarm is suspended while the per-call alarm is armed and restored afterwards."""
   fn, args = _closure(w, ev)
   armed = callable(_signal.getsignal(_SIGALRM))     # only where the kernel installed its alarm handler
-  remaining = 0.0
-  if armed:
-    remaining, _ = signal.getitimer(signal.ITIMER_REAL)
-    t0 = time.monotonic()
-    signal.setitimer(signal.ITIMER_REAL, OP_TIMER_S)
-  try:
+  if not armed:
     try:
       fn(*args)
-      res = "ok"
-    finally:
-      if armed:
-        signal.setitimer(signal.ITIMER_REAL, 0)
-  except CaseTimeout:
-    res = "slow"
-  except RecursionError:
-    res = "exc:RecursionError"
-  except Exception as e:  # pylint: disable=broad-except
-    res = "exc:" + type(e).__name__
-  finally:
-    if remaining > 0:
-      signal.setitimer(signal.ITIMER_REAL, max(0.05, remaining - (time.monotonic() - t0)))
-  if res != "slow":
-    return res, w
-  if retry_world is None:
-    return "hang", None
-  w2 = retry_world()
-  fn, args = _closure(w2, ev)
+      return "ok", w
+    except RecursionError:
+      return "exc:RecursionError", w
+    except Exception as e:  # pylint: disable=broad-except
+      return "exc:" + type(e).__name__, w
+  remaining, _ = signal.getitimer(signal.ITIMER_REAL)
+  t0 = time.monotonic()
+  res = None
   try:
-    _run_traced(fn, args)
-    return "ok", w2
-  except StepBudgetExceeded:
-    return "hang", None
-  except RecursionError:
-    return "exc:RecursionError", w2
-  except Exception as e:  # pylint: disable=broad-except
-    return "exc:" + type(e).__name__, w2
+    # everything between arming and disarming sits inside this try: the alarm may be delivered at any byte code
+    try:
+      signal.setitimer(signal.ITIMER_REAL, OP_TIMER_S)
+      fn(*args)
+      res = "ok"
+    except CaseTimeout:
+      raise
+    except RecursionError:
+      res = "exc:RecursionError"
+    except Exception as e:  # pylint: disable=broad-except
+      res = "exc:" + type(e).__name__
+    finally:
+      signal.setitimer(signal.ITIMER_REAL, 0)
+    _pad = 0  # noqa: F841  (a late delivery still lands inside the try)
+  except CaseTimeout:
+    signal.setitimer(signal.ITIMER_REAL, 0)
+    res = "slow"
+  out = w
+  if res == "slow":
+    if retry_world is None:
+      res, out = "hang", None
+    else:
+      out = retry_world()
+      fn, args = _closure(out, ev)
+      try:
+        _run_traced(fn, args)
+        res = "ok"
+      except StepBudgetExceeded:
+        res, out = "hang", None
+      except RecursionError:
+        res = "exc:RecursionError"
+      except Exception as e:  # pylint: disable=broad-except
+        res = "exc:" + type(e).__name__
+  if remaining > 0:
+    signal.setitimer(signal.ITIMER_REAL, max(0.05, remaining - (time.monotonic() - t0)))
+  return res, out
 
 
 # ------------------------------------------------------------------------------------------------------
